@@ -26,7 +26,7 @@ func init() { core.Register(&area{}) }
 func (a *area) Name() string { return "query" }
 
 // number of dedicated deterministic cases (witnesses of the recorded findings and fixed shapes)
-const nFixed = 23
+const nFixed = 25
 
 func (a *area) Run(c *core.Ctx) error {
 	if c.Args["lindb-log"] != "" {
@@ -54,6 +54,7 @@ func (a *area) Run(c *core.Ctx) error {
 			} else {
 				// every 9th later case (and more with -arg region=container-boundary-multi-field, the
 				// bias of the violation search) lies in the region container-boundary-multi-field
+				sparseCase = i%9 == 3 || (c.Args["region"] == "sparse-series-filter" && i%3 != 0)
 				runRandom(c, i, i%9 == 7 || (c.Args["region"] == "container-boundary-multi-field" && i%3 != 0))
 			}
 		}()
@@ -513,8 +514,13 @@ func pickBoundaryIDs(rng *rand.Rand, n int) []uint32 {
 	}
 }
 
+// sparseCase: the next random case lies in the region sparse-series-filter (set by Run; cases run
+// one after another).
+var sparseCase bool
+
 func runRandom(c *core.Ctx, idx int, boundary bool) {
 	rng := c.Rng(idx)
+	sparse := sparseCase && !boundary
 	ivMs := intervals[rng.Intn(len(intervals))]
 	r, err := newRunOpt(c, ivMs, boundary)
 	if err != nil {
@@ -599,6 +605,42 @@ func runRandom(c *core.Ctx, idx int, boundary bool) {
 			nOps += 10
 		}
 	}
+	// region sparse-series-filter: 5..9 series (ids in the order of their first rows: one row each at
+	// the start). A memory database flushes every series of the shard's in-memory series index, and
+	// that index starts empty at a restart: after every reopen only a random subset of the series
+	// (`live`, growing slowly) is written, so memory databases and files hold different subsets of
+	// the ids; most queries carry a tag condition
+	var srng *rand.Rand
+	var live []seriesDef
+	if sparse {
+		c.Branch("gen/region:sparse-series-filter")
+		srng = rand.New(rand.NewSource(rng.Int63()))
+		target := 5 + srng.Intn(5)
+		for len(sdefs) < target {
+			a, b := 1+srng.Intn(3), 1+srng.Intn(3)
+			if seen[[2]int{a, b}] {
+				continue
+			}
+			seen[[2]int{a, b}] = true
+			sdefs = append(sdefs, seriesDef{id: len(sdefs) + 1, tags: map[int]int{1: a, 2: b}})
+		}
+		wT, fT, cT = 62, 78, 83
+		if nOps < 20 {
+			nOps += 12
+		}
+	}
+	pickSeries := func(fam int) seriesDef {
+		if !sparse {
+			return sdefs[rng.Intn(len(sdefs))]
+		}
+		if live == nil {
+			return sdefs[srng.Intn(len(sdefs))]
+		}
+		if srng.Intn(10) == 0 {
+			live = append(live, sdefs[srng.Intn(len(sdefs))])
+		}
+		return live[srng.Intn(len(live))]
+	}
 	// a "hot" region of slots so that duplicates and window effects are frequent
 	hot := rng.Intn(spf)
 	// two hot regions more than a window apart: writes flip between them, so windows are left,
@@ -620,17 +662,39 @@ func runRandom(c *core.Ctx, idx int, boundary bool) {
 		}
 	}
 	queries := 0
+	inWindow := false
 	doQuery := func() {
 		q := genQuery(rng, r, flds, useHist, famChoices)
+		if sparse && q.cond.kind == "all" && srng.Intn(2) == 0 {
+			q.cond = genCond(srng, 1)
+		}
+		// one query in eight (own commutative aggregates only): a family's flush runs to completion
+		// between the query's filtering and its loading
+		if !inWindow && placementFree(q) && rng.Intn(8) == 0 {
+			fam := pick(rng, famChoices)
+			r.queryFlushBeforeLoad(q, fam)
+			queries++
+			return
+		}
 		r.query(q)
 		queries++
+	}
+	if sparse {
+		for _, s := range sdefs {
+			f := flds[srng.Intn(len(flds))]
+			r.writeRow(pick(srng, famChoices), s, slotOf(), 0, []fieldVal{{f, float64(srng.Intn(41) - 10)}}, nil, false)
+		}
+		if srng.Intn(4) != 0 {
+			r.reopen()
+			live = sparseSubset(srng, sdefs)
+		}
 	}
 	for op := 0; op < nOps; op++ {
 		x := rng.Intn(100)
 		switch {
 		case x < wT:
 			fam := pick(rng, famChoices)
-			s := sdefs[rng.Intn(len(sdefs))]
+			s := pickSeries(fam)
 			slot := slotOf()
 			// fields of this row
 			var fvs []fieldVal
@@ -685,6 +749,8 @@ func runRandom(c *core.Ctx, idx int, boundary bool) {
 					window = r.flushFail
 				}
 				window(fam, func() {
+					inWindow = true
+					defer func() { inWindow = false }()
 					for k := 0; k < nw; k++ {
 						wf := fam
 						if rng.Intn(4) == 0 {
@@ -693,7 +759,7 @@ func runRandom(c *core.Ctx, idx int, boundary bool) {
 						if wf != fam && r.sh.fam(wf).mem == nil && false {
 							continue
 						}
-						s := sdefs[rng.Intn(len(sdefs))]
+						s := pickSeries(wf)
 						slot := slotOf()
 						f := flds[rng.Intn(len(flds))]
 						if !commutative(aggOfFieldType(schema[f].ftype)) && r.sh.flushedCell[cellKey{wf, s.id, f, slot}] {
@@ -712,8 +778,13 @@ func runRandom(c *core.Ctx, idx int, boundary bool) {
 			}
 		case x < cT:
 			r.compact(pick(rng, famChoices))
-		case x < 87 || (partial && x < 91):
+		case x < 87 || (partial && x < 91) || (sparse && x < 92):
 			r.reopen()
+			if sparse {
+				// the shard's in-memory series index starts empty: from now on the storage units hold
+				// only the series written after the restart
+				live = sparseSubset(srng, sdefs)
+			}
 			if boundary {
 				// after a restart the memory databases' metric index is empty; as soon as it holds a
 				// series of one container, a query that also covers a series of a LARGER container
